@@ -10,6 +10,29 @@ import io
 from ..tlc import MachineryError
 
 
+def base_table_digest():
+    """digest of the four class-level base-encoding tables of EncodingDB (they are shared by every font without Differences)"""
+    import zlib
+
+    from pdfminer.encodingdb import EncodingDB
+    h = 0
+    for name in sorted(EncodingDB.encodings):
+        h = zlib.crc32(repr((name, sorted(EncodingDB.encodings[name].items()))).encode(), h)
+    return h
+
+
+def pristine_tables():
+    """the four base tables rebuilt from latin_enc.ENCODING + glyphlist (data), independent of EncodingDB's state"""
+    from pdfminer.glyphlist import glyphname2unicode
+    from pdfminer.latin_enc import ENCODING
+    t = {"StandardEncoding": {}, "MacRomanEncoding": {}, "WinAnsiEncoding": {}, "PDFDocEncoding": {}}
+    for (name, std, mac, win, pdf) in ENCODING:
+        for k, c in (("StandardEncoding", std), ("MacRomanEncoding", mac), ("WinAnsiEncoding", win), ("PDFDocEncoding", pdf)):
+            if c:
+                t[k][c] = glyphname2unicode[name]
+    return t
+
+
 @contextlib.contextmanager
 def recording():
     """while active: every font built by get_font carries  font._verif_getenc = [(name, diff, result-copy, result-object)]"""
@@ -35,11 +58,13 @@ def recording():
     def get_font(self, objid, spec):
         mark = len(log)
         cached = bool(objid) and objid in self._cached_fonts
+        d0 = base_table_digest()
         font = orig_gf(self, objid, spec)
         if not cached and not hasattr(font, "_verif_getenc"):
             try:
                 font._verif_getenc = log[mark:]
                 font._verif_spec = spec
+                font._verif_tabs = (d0, base_table_digest())
             except AttributeError:
                 pass
         return font
@@ -105,6 +130,8 @@ def simple_font_trace(origin, font):
     if res_copy is None:
         return None
     base = EncodingDB.get_encoding(name)
+    pristine = pristine_tables().get(name if name in EncodingDB.encodings else "StandardEncoding")
+    d0, d1 = getattr(font, "_verif_tabs", (0, 0))
 
     def table(d):
         return [cps(d[c]) if c in d else [] for c in range(256)]
@@ -146,5 +173,6 @@ def simple_font_trace(origin, font):
                       "inw": wc is not None, "eqw": eq(wc), "inm": wm is not None, "eqm": eq(wm),
                       "eqd": eq(font.default_width) if isinstance(font.default_width, (int, float)) else False})
     return {"origin": origin, "kind": type(font).__name__, "encname": str(name), "base": table(base), "diff": dl,
+            "tabs0": d0, "tabs1": d1, "pristine": dict(base) == pristine,
             "enc": table(res_copy), "final": table(font.cid2unicode), "builtin": font.cid2unicode is not res_obj,
             "codes": codes, "unmapped_diff_names": unmapped}
